@@ -227,6 +227,12 @@ func verifyAll(L *Loaded, sel func(c *Contract) bool, workDir string, timeout ti
 					if ls, ok := e.tb.LIAScript(src); ok {
 						j.lia = writeScript(workDir, o.Name+".lia", ls)
 					}
+					if qf != nil && os.Getenv("GOVC_INTQ") != "" {
+						// the obligation has quantified assumptions: also try them over the integers
+						if ls, ok := e.tb.LIAScriptQ(q); ok {
+							j.lia += ";" + writeScript(workDir, o.Name+".liaq", ls)
+						}
+					}
 				}
 				jobs = append(jobs, j)
 			}
